@@ -10,8 +10,12 @@ DRIVER = "drivers/C18.lean"
 SPEC_DRIVER = "drivers/SpecC18.lean"
 DRIVER_MODULES = ["BioCantor.Driver.Main", "BioCantor.Driver.Qualifiers"]
 SPEC_DRIVER_MODULES = ["BioCantor.Driver.Main", "BioCantor.Driver.SpecQualifiers"]
-GEN_NEEDS = ["featureNameQualifiers", "featureIdQualifiers", "FeatureInterval"]
-MODEL_OPS = {"extract", "types", "merge", "fsq", "ltgroup"}      # gbperm: spec + real parser only
+GEN_NEEDS = ["featureNameQualifiers", "featureIdQualifiers", "FeatureInterval",
+             "features_FEATURE_INTERVAL_NAME_QUALIFIERS", "features_FEATURE_INTERVAL_ID_QUALIFIERS",
+             "features_FEATURE_TYPE_IDENTIFIERS", "gff3_BioCantorQualifiers", "gff3_BioCantorGFF3ReservedQualifiers",
+             "genbank_GENBANK_GENE_FEATURES", "genbank_GeneFeatures", "genbank_TranscriptFeatures",
+             "genbank_GeneIntervalFeatures", "genbank_KnownQualifiers"]
+MODEL_OPS = {"extract", "types", "merge", "fsq", "ltgroup", "gbiotype"}      # gbperm: spec + real parser only
 RULE = ("extract: every subset of size <= K of the 9 recognised keys + the look-alikes genes/xname/ID2/Gene/NAME "
         "(K=4 quick, 5 thorough) in EVERY ordering, pairwise distinct values; the /note grid; newline look-alikes; "
         "random larger dicts with random letter case and multi-valued keys. types/merge/fsq: exhaustive small key "
@@ -77,6 +81,8 @@ def nontrivial(line, ans):
         n = int(t[1])
         tags = [t[2 + 3 * j] for j in range(n)]
         return line if len(set(tags)) < len(tags) else None
+    if op == "gbiotype":
+        return line if int(t[1]) >= 2 else None
     if op == "gbperm":
         n = int(t[1])
         tags = [t[2 + 4 * j] for j in range(n)]
@@ -319,6 +325,24 @@ def _gbperm_cases(run, nrec, nperm):
             yield gbperm_line(feats, p)
 
 
+TX_TYPES = ["mRNA", "ncRNA", "tRNA", "rRNA", "misc_RNA", "tmRNA"]
+
+
+def _gbiotype_cases(run, nmax, nrand):
+    """gene biotype of one locus: every sequence of <= nmax transcript types (all orders), then longer random ones"""
+    for n in range(1, nmax + 1):
+        for seq in itertools.product(TX_TYPES, repeat=n):
+            run.count(f"gbiotype:len{n}")
+            yield "gbiotype " + enc_list(list(seq))
+    rng = run.rng
+    for _ in range(nrand):
+        seq = [rng.choice(TX_TYPES[:rng.randint(2, 6)]) for _ in range(rng.randint(5, 9))]
+        run.count("gbiotype:random")
+        yield "gbiotype " + enc_list(seq)
+        rng.shuffle(seq)
+        yield "gbiotype " + enc_list(seq)
+
+
 def cases(run):
     global EXHAUSTIVE_NOTE
     thorough = run.tier == "thorough"
@@ -331,7 +355,8 @@ def cases(run):
                        f"{3 if thorough else 2} of 10 keys x 3 initial sets. merge: all pairs of dicts over keys {{a,b}}, "
                        "values {x,y}, <= 2 values per key" + ("" if thorough else " (a fixed half of them)") +
                        ". fsq: 26 keys x 3 contexts x every position. ltgroup: every feature sequence with " +
-                       "; ".join(f"<= {n} features over tags {t} x kinds {k}" for t, k, n in lt_scopes))
+                       "; ".join(f"<= {n} features over tags {t} x kinds {k}" for t, k, n in lt_scopes) +
+                       f". gbiotype: every sequence of <= {4 if thorough else 3} of the 6 transcript feature types")
     yield from _extract_exhaustive(run, kmax)
     yield from _note_grid(run)
     yield from _newline_lookalikes(run)
@@ -339,6 +364,7 @@ def cases(run):
     yield from _merge_cases(run, thorough, 3000 if thorough else 300)
     yield from _fsq_cases(run, 3000 if thorough else 300)
     yield from _ltgroup_cases(run, lt_scopes, 3000 if thorough else 300)
+    yield from _gbiotype_cases(run, 4 if thorough else 3, 1000 if thorough else 60)
     run.exhaustive = True
     yield from _extract_random(run, 20000 if thorough else 2000)
     yield from _gbperm_cases(run, 200 if thorough else 30, 6 if thorough else 3)
